@@ -129,9 +129,12 @@ package logdb
 //@ ensures gIOFailed && !old(gIOFailed) ==> result1 != nil
 //@ ensures old(gIOFailed) ==> gIOFailed
 
-//@ func (r *db) saveSnapshot [C10 C20]
+// gSnapPuts: number of snapshot records put into a write batch so far
+//@ ghost var gSnapPuts int
+//@ func (r *db) saveSnapshot [C10 C20 C09]
 //@ noframe
-//@ modifies gIOFailed, gRecSnapshot
+//@ modifies gIOFailed, gRecSnapshot, gSnapPuts
+//@ ghostset gSnapPuts := old(gSnapPuts) + ite(result == nil && ud.Snapshot.Index != 0, 1, 0)
 //@ ensures gIOFailed && !old(gIOFailed) ==> result != nil
 //@ ensures old(gIOFailed) ==> gIOFailed
 //@ ghostset gRecSnapshot := ite(result == nil && ud.Snapshot.Index != 0 && ud.Snapshot.Index == gSnapIndex, 1, old(gRecSnapshot))
@@ -238,11 +241,15 @@ package logdb
 //@ ensures gIOFailed && !old(gIOFailed) ==> result != nil
 //@ loop 1 invariant gIOFailed == old(gIOFailed)
 
-//@ func (r *db) saveSnapshots [C10 C16]
+// C09 (newest snapshot record): a batch of updates may carry snapshots for several replicas; when the
+// call reports success, every snapshot record that was put into the write batch has been committed
+// with it -- whichever update of the batch carried it
+//@ func (r *db) saveSnapshots [C10 C16 C09]
 //@ noframe
-//@ modifies gIOFailed
+//@ modifies gIOFailed, gSnapPuts, gBatchCommits, gRecSnapshot
 //@ ensures gIOFailed && !old(gIOFailed) ==> result != nil
-//@ loop 1 invariant gIOFailed == old(gIOFailed)
+//@ ensures result == nil && gSnapPuts > old(gSnapPuts) ==> gBatchCommits > old(gBatchCommits)
+//@ loop 1 invariant gIOFailed == old(gIOFailed) && gBatchCommits == old(gBatchCommits) && gSnapPuts >= old(gSnapPuts) && (gSnapPuts > old(gSnapPuts) ==> toSave)
 
 // ---------------------------------------------------------------- importing a snapshot into the log store (C20)
 // The write batch is abstracted by the last operation it holds on each record of the replica:
